@@ -40,7 +40,8 @@
 (***************************************************************************)
 EXTENDS Integers, Sequences, TLC, Json, IOUtils
 
-CONSTANTS DtypeTol,     \* 1e-6 of the value range
+CONSTANTS SmallTol,     \* 1e-6 of the blob height: small-rotation accuracy
+          DtypeTol,     \* 1e-6 of the value range
           ComTol,       \* 1e-4 voxel
           BackMin,      \* 1e-6 correlation
           SymMin,       \* 1e-6 correlation
@@ -52,6 +53,13 @@ VARIABLES tid, l, ok, clause
 vars == <<tid, l, ok, clause>>
 
 Events == Traces[tid].ev
+
+\* small non-zero rotations (0.05 .. 2 degree) are rotations like any other: a unit-height Gaussian blob at offset v from the
+\* centre must come out as the analytic blob at R v (err = largest voxel deviation, 1e-6), and the inverse rotation must
+\* bring the original back (back); moved = |R v - v| in 1e-4 voxel is logged to show what skipping the rotation would cost
+SmallRotFailing(e) == IF e.err < 0 \/ e.err > SmallTol THEN "C14_SmallRotationApplied"
+                      ELSE IF e.back < 0 \/ e.back > 2 * SmallTol THEN "C14_InverseRestores"
+                      ELSE "none"
 
 GreyFailing(e) == IF ~e.args_ok THEN "C14_InputsUntouched"
                   ELSE IF e.single_list # 0 THEN "C14_TemplateFormsAgree"
@@ -77,6 +85,7 @@ DtypeFailing(e) == IF \E i \in DOMAIN e.rot : e.rot[i] < 0 \/ e.rot[i] > DtypeTo
 Failing(e) == CASE e.kind = "rotblob" -> RotFailing(e)
                 [] e.kind = "dtype" -> DtypeFailing(e)
                 [] e.kind = "grey" -> GreyFailing(e)
+                [] e.kind = "smallrot" -> SmallRotFailing(e)
                 [] e.kind = "sym" -> SymFailing(e)
 
 TraceInit == /\ tid \in 1..Len(Traces)
